@@ -110,6 +110,9 @@ def renderRes : Res → String
   | .installed a leo hw => s!"ok {authStr a} {leo} {hw}"
   | .receipt r => s!"ok {authStr r.a} {cmdStr r.cmd} {r.first} {r.last} {r.hw}"
   | .err e => "err " ++ e.str
+  | .batch outs => "ok " ++ ",".intercalate (outs.map (fun o => match o with
+      | .durable => "D" | .already => "A" | .notWritten => "B"
+      | .conflict nf => if nf > 0 then "N" else "C"))
   | .ok => "ok"
   | .notup => "err notup"
   | .already => "err already"
